@@ -126,6 +126,18 @@ def gdefHolds : List Step → File → List File → List (List GKind) → Bool
   | .gdef i :: ss, f, o :: os, g :: gs => holdsGdefGen i f g && gdefHolds ss o os gs
   | _, _, _, _ => false
 
+/-- diagnostics only (classification of a failure): the run with the GDEF writer's OLD first-block-only scan - the
+files after each writer and the types each GDEF writer generates -/
+def runOld : List Step → File → Option (List File × List (List GKind))
+  | [], _ => some ([], [])
+  | .writer w :: ss, f =>
+    match write w f with
+    | .ok f' => (runOld ss f').map (fun r => (f' :: r.1, r.2))
+    | .error _ => none
+  | .gdef i :: ss, f =>
+    let f' := gdefStepFirstBlock i f
+    (runOld ss f').map (fun r => (f' :: r.1, gdefGenOfFirstBlock i f :: r.2))
+
 /-- op "run": in = {file, steps}; obs = {err, files:[file after each writer], ctx:[…]} -/
 def run (req : Json) : R Reply := do
   let i ← field req "in"
@@ -145,17 +157,23 @@ def run (req : Json) : R Reply := do
     | none =>
       let ofiles ← asList asFile (← field obs "files")
       -- end-to-end observations made by the harness on the compiled font / feature text (all must be true)
-      let flags : List Bool ← match obs.getObjVal? "flags" with
-        | .ok fl => do let l ← asList (asPair asStr asBool) fl; pure (l.map (·.2))
+      let flagsN : List (String × Bool) ← match obs.getObjVal? "flags" with
+        | .ok fl => asList (asPair asStr asBool) fl
         | .error _ => pure []
+      let flags := flagsN.map (·.2)
       -- text level: the user's statements (with the names of the enclosing blocks) are a subsequence of the output's
       let ut : List String ← match obs.getObjVal? "utext" with | .ok x => asList asStr x | .error _ => pure []
       let ot : List String ← match obs.getObjVal? "otext" with | .ok x => asList asStr x | .error _ => pure []
       let og : List (List GKind) ← match obs.getObjVal? "gdef" with
         | .ok x => asList (asList (fun k => do gkindOf (← asStr k))) x
         | .error _ => pure []
-      return { model, holds := holdsRun steps f ofiles && holdsFinal f ofiles && gdefHolds steps f ofiles og &&
-                               flags.all id && ut.isSublist ot }
+      let holds := holdsRun steps f ofiles && holdsFinal f ofiles && gdefHolds steps f ofiles og &&
+                   flags.all id && ut.isSublist ot
+      -- the observed run is, object for object, the run of the old first-block-only scan, and nothing but the GDEF
+      -- part of the property fails
+      let oldScan := !holds && runOld steps f == some (ofiles, og) && holdsFinal f ofiles && ut.isSublist ot &&
+                     (flagsN.filter (fun p => !p.1.startsWith "gdef_")).all (·.2)
+      return { model, holds, info := Json.mkObj [("firstBlockScanOnly", Json.bool oldScan)] }
 
 /-- op "markers": in = {texts}; obs = [bool] (does collectInsertMarkers pick a comment with this text up) -/
 def markers (req : Json) : R Reply := do
